@@ -7,9 +7,9 @@
 //                        of the little-endian words; KeyInit::new(key) == zero tweak.  All keys, all tweaks.
 //   tfN_enc / tfN_dec    W: encrypt_block_u64 / decrypt_block_u64 == oracle on an ARBITRARY subkey table (superset of
 //                        all keys and tweaks), all blocks; mix / inv_mix uninterpreted, shared with the oracle
-//   tfN_bytes            W: encrypt_block / decrypt_block (byte entry points of the cipher traits) == the u64 entry
+//   tfN_bytes_enc/_dec   W: encrypt_block / decrypt_block (byte entry points of the cipher traits) == the u64 entry
 //                        points under little-endian encoding
-//   tfN_rt               W: decrypt_block_u64(encrypt_block_u64(b)) == b and the converse, arbitrary subkey table
+//   tfN_rt_ed / _rt_de   W: decrypt_block_u64(encrypt_block_u64(b)) == b and the converse, arbitrary subkey table
 //   tfN_rt_bytes         W: decrypt_block(encrypt_block(b)) == b through the byte entry points
 //
 // Uninterpreted mix / inv_mix with match hints (module ufm).  Every W query runs two passes with the same number of
@@ -298,7 +298,7 @@ tf_inst!(t256, Threefish256, nw = 4, ns = 19, log = ufm256);
 tf_inst!(t512, Threefish512, nw = 8, ns = 19, log = ufm512);
 tf_inst!(t1024, Threefish1024, nw = 16, ns = 21, log = ufm1024);
 
-// ------------------------------------------------------------------ Threefish-256 (subkey table 608 bytes, block 32 bytes)
+// ------------------------------------------------------------------ Threefish-256 (subkey table 608 bytes, block 32 bytes, 288 MIX calls per harness)
 
 //@ harness name=tf256_ks prop=C10,C20 tier=quick bits=384 est=60 desc="D: Threefish256 new_with_tweak_u64 == Skein 1.3 key schedule (C240, t2 = t0^t1, 19 subkeys); new_with_tweak(bytes) == same on LE words; KeyInit::new == zero tweak; all keys and tweaks"
 verif_harness! {
@@ -307,7 +307,7 @@ verif_harness! {
     unwind: 140,
     prop: |inp| { t256::ks(inp) }
 }
-//@ harness name=tf256_enc prop=C10,C20 tier=quick bits=5120 stub=1 est=120 desc="W: Threefish256::encrypt_block_u64 == oracle (72 rounds, subkey every 4 rounds, permutation pi, rotation table) on an ARBITRARY subkey table, all blocks; mix uninterpreted"
+//@ harness name=tf256_enc prop=C10,C20 tier=quick bits=5120 stub=1 est=200 desc="W: Threefish256::encrypt_block_u64 == oracle (72 rounds, subkey every 4 rounds, permutation pi, rotation table) on an ARBITRARY subkey table, all blocks; mix uninterpreted"
 verif_harness! {
     name: tf256_enc,
     bytes: 640,
@@ -315,7 +315,7 @@ verif_harness! {
     stubs: [(crate::mix, t256::stub_mix), (crate::inv_mix, t256::stub_inv_mix)],
     prop: |inp| { t256::enc(inp) }
 }
-//@ harness name=tf256_dec prop=C10,C20 tier=quick bits=5120 stub=1 est=120 desc="W: Threefish256::decrypt_block_u64 == oracle decryption on an ARBITRARY subkey table, all blocks; inv_mix uninterpreted"
+//@ harness name=tf256_dec prop=C10,C20 tier=quick bits=5120 stub=1 est=200 desc="W: Threefish256::decrypt_block_u64 == oracle decryption on an ARBITRARY subkey table, all blocks; inv_mix uninterpreted"
 verif_harness! {
     name: tf256_dec,
     bytes: 640,
@@ -323,23 +323,39 @@ verif_harness! {
     stubs: [(crate::mix, t256::stub_mix), (crate::inv_mix, t256::stub_inv_mix)],
     prop: |inp| { t256::dec(inp) }
 }
-//@ harness name=tf256_bytes prop=C10,C20 tier=quick bits=5120 stub=1 est=120 desc="W: Threefish256 encrypt_block / decrypt_block (byte entry points) == LE(encrypt_block_u64 / decrypt_block_u64(LE words)), ARBITRARY subkey table, all blocks"
+//@ harness name=tf256_bytes_enc prop=C10,C20 tier=quick bits=5120 stub=1 est=200 desc="W: Threefish256 encrypt_block (bytes) == LE(encrypt_block_u64(LE words)), ARBITRARY subkey table, all blocks"
 verif_harness! {
-    name: tf256_bytes,
+    name: tf256_bytes_enc,
     bytes: 640,
     unwind: 140,
     stubs: [(crate::mix, t256::stub_mix), (crate::inv_mix, t256::stub_inv_mix)],
-    prop: |inp| { t256::bytes(inp) }
+    prop: |inp| { t256::bytes_enc(inp) }
 }
-//@ harness name=tf256_rt prop=C01,C20 tier=quick bits=5120 stub=1 est=120 desc="W: Threefish256 decrypt_block_u64(encrypt_block_u64(b)) == b and encrypt_block_u64(decrypt_block_u64(b)) == b on an ARBITRARY subkey table (any key, any tweak), all blocks; mix / inv_mix uninterpreted mutual inverses (leaf lemma)"
+//@ harness name=tf256_bytes_dec prop=C10,C20 tier=quick bits=5120 stub=1 est=200 desc="W: Threefish256 decrypt_block (bytes) == LE(decrypt_block_u64(LE words)), ARBITRARY subkey table, all blocks"
 verif_harness! {
-    name: tf256_rt,
+    name: tf256_bytes_dec,
     bytes: 640,
     unwind: 140,
     stubs: [(crate::mix, t256::stub_mix), (crate::inv_mix, t256::stub_inv_mix)],
-    prop: |inp| { t256::rt(inp) }
+    prop: |inp| { t256::bytes_dec(inp) }
 }
-//@ harness name=tf256_rt_bytes prop=C01,C20 tier=quick bits=5120 stub=1 est=120 desc="W: Threefish256 decrypt_block(encrypt_block(b)) == b through the byte entry points, ARBITRARY subkey table, all blocks"
+//@ harness name=tf256_rt_ed prop=C01,C20 tier=quick bits=5120 stub=1 est=200 desc="W: Threefish256 decrypt_block_u64(encrypt_block_u64(b)) == b on an ARBITRARY subkey table (any key, any tweak), all blocks; mix / inv_mix uninterpreted mutual inverses (leaf lemma)"
+verif_harness! {
+    name: tf256_rt_ed,
+    bytes: 640,
+    unwind: 140,
+    stubs: [(crate::mix, t256::stub_mix), (crate::inv_mix, t256::stub_inv_mix)],
+    prop: |inp| { t256::rt_ed(inp) }
+}
+//@ harness name=tf256_rt_de prop=C01,C20 tier=quick bits=5120 stub=1 est=200 desc="W: Threefish256 encrypt_block_u64(decrypt_block_u64(b)) == b on an ARBITRARY subkey table, all blocks"
+verif_harness! {
+    name: tf256_rt_de,
+    bytes: 640,
+    unwind: 140,
+    stubs: [(crate::mix, t256::stub_mix), (crate::inv_mix, t256::stub_inv_mix)],
+    prop: |inp| { t256::rt_de(inp) }
+}
+//@ harness name=tf256_rt_bytes prop=C01,C20 tier=quick bits=5120 stub=1 est=200 desc="W: Threefish256 decrypt_block(encrypt_block(b)) == b through the byte entry points, ARBITRARY subkey table, all blocks"
 verif_harness! {
     name: tf256_rt_bytes,
     bytes: 640,
@@ -348,7 +364,7 @@ verif_harness! {
     prop: |inp| { t256::rt_bytes(inp) }
 }
 
-// ------------------------------------------------------------------ Threefish-512 (subkey table 1216 bytes, block 64 bytes)
+// ------------------------------------------------------------------ Threefish-512 (subkey table 1216 bytes, block 64 bytes, 576 MIX calls per harness)
 
 //@ harness name=tf512_ks prop=C10,C20 tier=quick bits=640 est=60 desc="D: Threefish512 new_with_tweak_u64 == Skein 1.3 key schedule (C240, t2 = t0^t1, 19 subkeys); new_with_tweak(bytes) == same on LE words; KeyInit::new == zero tweak; all keys and tweaks"
 verif_harness! {
@@ -357,7 +373,7 @@ verif_harness! {
     unwind: 140,
     prop: |inp| { t512::ks(inp) }
 }
-//@ harness name=tf512_enc prop=C10,C20 tier=quick bits=10240 stub=1 est=120 desc="W: Threefish512::encrypt_block_u64 == oracle (72 rounds, subkey every 4 rounds, permutation pi, rotation table) on an ARBITRARY subkey table, all blocks; mix uninterpreted"
+//@ harness name=tf512_enc prop=C10,C20 tier=quick bits=10240 stub=1 est=200 desc="W: Threefish512::encrypt_block_u64 == oracle (72 rounds, subkey every 4 rounds, permutation pi, rotation table) on an ARBITRARY subkey table, all blocks; mix uninterpreted"
 verif_harness! {
     name: tf512_enc,
     bytes: 1280,
@@ -365,7 +381,7 @@ verif_harness! {
     stubs: [(crate::mix, t512::stub_mix), (crate::inv_mix, t512::stub_inv_mix)],
     prop: |inp| { t512::enc(inp) }
 }
-//@ harness name=tf512_dec prop=C10,C20 tier=quick bits=10240 stub=1 est=120 desc="W: Threefish512::decrypt_block_u64 == oracle decryption on an ARBITRARY subkey table, all blocks; inv_mix uninterpreted"
+//@ harness name=tf512_dec prop=C10,C20 tier=quick bits=10240 stub=1 est=200 desc="W: Threefish512::decrypt_block_u64 == oracle decryption on an ARBITRARY subkey table, all blocks; inv_mix uninterpreted"
 verif_harness! {
     name: tf512_dec,
     bytes: 1280,
@@ -373,23 +389,39 @@ verif_harness! {
     stubs: [(crate::mix, t512::stub_mix), (crate::inv_mix, t512::stub_inv_mix)],
     prop: |inp| { t512::dec(inp) }
 }
-//@ harness name=tf512_bytes prop=C10,C20 tier=quick bits=10240 stub=1 est=120 desc="W: Threefish512 encrypt_block / decrypt_block (byte entry points) == LE(encrypt_block_u64 / decrypt_block_u64(LE words)), ARBITRARY subkey table, all blocks"
+//@ harness name=tf512_bytes_enc prop=C10,C20 tier=quick bits=10240 stub=1 est=200 mem=26 desc="W: Threefish512 encrypt_block (bytes) == LE(encrypt_block_u64(LE words)), ARBITRARY subkey table, all blocks"
 verif_harness! {
-    name: tf512_bytes,
+    name: tf512_bytes_enc,
     bytes: 1280,
     unwind: 140,
     stubs: [(crate::mix, t512::stub_mix), (crate::inv_mix, t512::stub_inv_mix)],
-    prop: |inp| { t512::bytes(inp) }
+    prop: |inp| { t512::bytes_enc(inp) }
 }
-//@ harness name=tf512_rt prop=C01,C20 tier=quick bits=10240 stub=1 est=120 desc="W: Threefish512 decrypt_block_u64(encrypt_block_u64(b)) == b and encrypt_block_u64(decrypt_block_u64(b)) == b on an ARBITRARY subkey table (any key, any tweak), all blocks; mix / inv_mix uninterpreted mutual inverses (leaf lemma)"
+//@ harness name=tf512_bytes_dec prop=C10,C20 tier=quick bits=10240 stub=1 est=200 mem=26 desc="W: Threefish512 decrypt_block (bytes) == LE(decrypt_block_u64(LE words)), ARBITRARY subkey table, all blocks"
 verif_harness! {
-    name: tf512_rt,
+    name: tf512_bytes_dec,
     bytes: 1280,
     unwind: 140,
     stubs: [(crate::mix, t512::stub_mix), (crate::inv_mix, t512::stub_inv_mix)],
-    prop: |inp| { t512::rt(inp) }
+    prop: |inp| { t512::bytes_dec(inp) }
 }
-//@ harness name=tf512_rt_bytes prop=C01,C20 tier=quick bits=10240 stub=1 est=120 desc="W: Threefish512 decrypt_block(encrypt_block(b)) == b through the byte entry points, ARBITRARY subkey table, all blocks"
+//@ harness name=tf512_rt_ed prop=C01,C20 tier=quick bits=10240 stub=1 est=200 desc="W: Threefish512 decrypt_block_u64(encrypt_block_u64(b)) == b on an ARBITRARY subkey table (any key, any tweak), all blocks; mix / inv_mix uninterpreted mutual inverses (leaf lemma)"
+verif_harness! {
+    name: tf512_rt_ed,
+    bytes: 1280,
+    unwind: 140,
+    stubs: [(crate::mix, t512::stub_mix), (crate::inv_mix, t512::stub_inv_mix)],
+    prop: |inp| { t512::rt_ed(inp) }
+}
+//@ harness name=tf512_rt_de prop=C01,C20 tier=quick bits=10240 stub=1 est=200 desc="W: Threefish512 encrypt_block_u64(decrypt_block_u64(b)) == b on an ARBITRARY subkey table, all blocks"
+verif_harness! {
+    name: tf512_rt_de,
+    bytes: 1280,
+    unwind: 140,
+    stubs: [(crate::mix, t512::stub_mix), (crate::inv_mix, t512::stub_inv_mix)],
+    prop: |inp| { t512::rt_de(inp) }
+}
+//@ harness name=tf512_rt_bytes prop=C01,C20 tier=quick bits=10240 stub=1 est=200 desc="W: Threefish512 decrypt_block(encrypt_block(b)) == b through the byte entry points, ARBITRARY subkey table, all blocks"
 verif_harness! {
     name: tf512_rt_bytes,
     bytes: 1280,
@@ -398,7 +430,7 @@ verif_harness! {
     prop: |inp| { t512::rt_bytes(inp) }
 }
 
-// ------------------------------------------------------------------ Threefish-1024 (subkey table 2688 bytes, block 128 bytes)
+// ------------------------------------------------------------------ Threefish-1024 (subkey table 2688 bytes, block 128 bytes, 1280 MIX calls per harness)
 
 //@ harness name=tf1024_ks prop=C10,C20 tier=quick bits=1152 est=60 desc="D: Threefish1024 new_with_tweak_u64 == Skein 1.3 key schedule (C240, t2 = t0^t1, 21 subkeys); new_with_tweak(bytes) == same on LE words; KeyInit::new == zero tweak; all keys and tweaks"
 verif_harness! {
@@ -407,7 +439,7 @@ verif_harness! {
     unwind: 140,
     prop: |inp| { t1024::ks(inp) }
 }
-//@ harness name=tf1024_enc prop=C10,C20 tier=quick bits=22528 stub=1 est=120 desc="W: Threefish1024::encrypt_block_u64 == oracle (80 rounds, subkey every 4 rounds, permutation pi, rotation table) on an ARBITRARY subkey table, all blocks; mix uninterpreted"
+//@ harness name=tf1024_enc prop=C10,C20 tier=thorough bits=22528 stub=1 est=1800 mem=30 desc="W: Threefish1024::encrypt_block_u64 == oracle (80 rounds, subkey every 4 rounds, permutation pi, rotation table) on an ARBITRARY subkey table, all blocks; mix uninterpreted"
 verif_harness! {
     name: tf1024_enc,
     bytes: 2816,
@@ -415,7 +447,7 @@ verif_harness! {
     stubs: [(crate::mix, t1024::stub_mix), (crate::inv_mix, t1024::stub_inv_mix)],
     prop: |inp| { t1024::enc(inp) }
 }
-//@ harness name=tf1024_dec prop=C10,C20 tier=quick bits=22528 stub=1 est=120 desc="W: Threefish1024::decrypt_block_u64 == oracle decryption on an ARBITRARY subkey table, all blocks; inv_mix uninterpreted"
+//@ harness name=tf1024_dec prop=C10,C20 tier=thorough bits=22528 stub=1 est=1800 mem=30 desc="W: Threefish1024::decrypt_block_u64 == oracle decryption on an ARBITRARY subkey table, all blocks; inv_mix uninterpreted"
 verif_harness! {
     name: tf1024_dec,
     bytes: 2816,
@@ -423,23 +455,39 @@ verif_harness! {
     stubs: [(crate::mix, t1024::stub_mix), (crate::inv_mix, t1024::stub_inv_mix)],
     prop: |inp| { t1024::dec(inp) }
 }
-//@ harness name=tf1024_bytes prop=C10,C20 tier=quick bits=22528 stub=1 est=120 desc="W: Threefish1024 encrypt_block / decrypt_block (byte entry points) == LE(encrypt_block_u64 / decrypt_block_u64(LE words)), ARBITRARY subkey table, all blocks"
+//@ harness name=tf1024_bytes_enc prop=C10,C20 tier=thorough bits=22528 stub=1 est=1800 mem=30 desc="W: Threefish1024 encrypt_block (bytes) == LE(encrypt_block_u64(LE words)), ARBITRARY subkey table, all blocks"
 verif_harness! {
-    name: tf1024_bytes,
+    name: tf1024_bytes_enc,
     bytes: 2816,
     unwind: 140,
     stubs: [(crate::mix, t1024::stub_mix), (crate::inv_mix, t1024::stub_inv_mix)],
-    prop: |inp| { t1024::bytes(inp) }
+    prop: |inp| { t1024::bytes_enc(inp) }
 }
-//@ harness name=tf1024_rt prop=C01,C20 tier=quick bits=22528 stub=1 est=120 desc="W: Threefish1024 decrypt_block_u64(encrypt_block_u64(b)) == b and encrypt_block_u64(decrypt_block_u64(b)) == b on an ARBITRARY subkey table (any key, any tweak), all blocks; mix / inv_mix uninterpreted mutual inverses (leaf lemma)"
+//@ harness name=tf1024_bytes_dec prop=C10,C20 tier=thorough bits=22528 stub=1 est=1800 mem=30 desc="W: Threefish1024 decrypt_block (bytes) == LE(decrypt_block_u64(LE words)), ARBITRARY subkey table, all blocks"
 verif_harness! {
-    name: tf1024_rt,
+    name: tf1024_bytes_dec,
     bytes: 2816,
     unwind: 140,
     stubs: [(crate::mix, t1024::stub_mix), (crate::inv_mix, t1024::stub_inv_mix)],
-    prop: |inp| { t1024::rt(inp) }
+    prop: |inp| { t1024::bytes_dec(inp) }
 }
-//@ harness name=tf1024_rt_bytes prop=C01,C20 tier=quick bits=22528 stub=1 est=120 desc="W: Threefish1024 decrypt_block(encrypt_block(b)) == b through the byte entry points, ARBITRARY subkey table, all blocks"
+//@ harness name=tf1024_rt_ed prop=C01,C20 tier=thorough bits=22528 stub=1 est=1800 mem=30 desc="W: Threefish1024 decrypt_block_u64(encrypt_block_u64(b)) == b on an ARBITRARY subkey table (any key, any tweak), all blocks; mix / inv_mix uninterpreted mutual inverses (leaf lemma)"
+verif_harness! {
+    name: tf1024_rt_ed,
+    bytes: 2816,
+    unwind: 140,
+    stubs: [(crate::mix, t1024::stub_mix), (crate::inv_mix, t1024::stub_inv_mix)],
+    prop: |inp| { t1024::rt_ed(inp) }
+}
+//@ harness name=tf1024_rt_de prop=C01,C20 tier=thorough bits=22528 stub=1 est=1800 mem=30 desc="W: Threefish1024 encrypt_block_u64(decrypt_block_u64(b)) == b on an ARBITRARY subkey table, all blocks"
+verif_harness! {
+    name: tf1024_rt_de,
+    bytes: 2816,
+    unwind: 140,
+    stubs: [(crate::mix, t1024::stub_mix), (crate::inv_mix, t1024::stub_inv_mix)],
+    prop: |inp| { t1024::rt_de(inp) }
+}
+//@ harness name=tf1024_rt_bytes prop=C01,C20 tier=thorough bits=22528 stub=1 est=1800 mem=30 desc="W: Threefish1024 decrypt_block(encrypt_block(b)) == b through the byte entry points, ARBITRARY subkey table, all blocks"
 verif_harness! {
     name: tf1024_rt_bytes,
     bytes: 2816,
